@@ -1249,11 +1249,11 @@ expr0:
                     p = strput(p, end, ".");
                     yyerror(buf);
                 }
-                /* x == 0 -> !x */
-                if (IS_NODE($1, NODE_NUMBER, 0)) {
+                /* x == 0 -> !x, unless x may be a float (0.0 == 0 but !0.0 is 0) */
+                if (IS_NODE($1, NODE_NUMBER, 0) && $3->type != TYPE_REAL && $3->type != TYPE_ANY && $3->type != TYPE_UNKNOWN) {
                     CREATE_UNARY_OP($$, F_NOT, TYPE_NUMBER, $3);
                 } else
-                if (IS_NODE($3, NODE_NUMBER, 0)) {
+                if (IS_NODE($3, NODE_NUMBER, 0) && $1->type != TYPE_REAL && $1->type != TYPE_ANY && $1->type != TYPE_UNKNOWN) {
                     CREATE_UNARY_OP($$, F_NOT, TYPE_NUMBER, $1);
                 } else {
                     CREATE_BINARY_OP($$, F_EQ, TYPE_NUMBER, $1, $3);
@@ -3057,11 +3057,11 @@ function_name:
 cond:
         L_IF '(' comma_expr ')' statement optional_else_part
             {
-                /* x != 0 -> x */
+                /* x != 0 -> x, unless x may be a float (0.0 != 0 is false, but 0.0 as a condition is true) */
                 if (IS_NODE($3, NODE_BINARY_OP, F_NE)) {
-                    if (IS_NODE($3->r.expr, NODE_NUMBER, 0))
+                    if (IS_NODE($3->r.expr, NODE_NUMBER, 0) && $3->l.expr->type != TYPE_REAL && $3->l.expr->type != TYPE_ANY && $3->l.expr->type != TYPE_UNKNOWN)
                         $3 = $3->l.expr;
-                    else if (IS_NODE($3->l.expr, NODE_NUMBER, 0))
+                    else if (IS_NODE($3->l.expr, NODE_NUMBER, 0) && $3->r.expr->type != TYPE_REAL && $3->r.expr->type != TYPE_ANY && $3->r.expr->type != TYPE_UNKNOWN)
                              $3 = $3->r.expr;
                 }
 
